@@ -102,8 +102,8 @@ func genLoopSpec(r *Rng, idx int) loopSpec {
 	l := loopSpec{Name: fmt.Sprintf("Loop%03d", idx)}
 	up := r.Chance(65)
 	st := pick(r, []int{1, 1, 2, 3, 5})
-	lo := pick(r, []string{"0", "1", "2", "a", "-3"})
-	hi := pick(r, []string{"b", "10", "7", "b", "13"})
+	lo := pick(r, []string{"0", "1", "2", "a", "-3", "7"})
+	hi := pick(r, []string{"b", "10", "7", "b", "13", "2"})
 	if up {
 		l.Start, l.Limit, l.Step = lo, hi, st
 		l.Cmp = pick(r, []string{"<", "<", "<=", "!="})
@@ -323,8 +323,12 @@ func suiteLoops(c *Ctx) error {
 				if !ok1 || !ok2 || len(ob.hdr) == 0 {
 					continue
 				}
-				if s0.Int64() != ob.hdr[0] || st.Int64() != int64(l.Step) {
-					continue // this phi is not the loop variable `i` (e.g. the accumulator)
+				if iv.Phi != nil && iv.Phi.Comment != "" {
+					if iv.Phi.Comment != "i" {
+						continue // the accumulator or the outer variable, not the instrumented `i`
+					}
+				} else if s0.Int64() != ob.hdr[0] || st.Int64() != int64(l.Step) {
+					continue // no source name on the phi: fall back to matching start and step
 				}
 				claimed = true
 				for k, v := range ob.hdr {
